@@ -10,8 +10,11 @@ from checks import _gov
 
 def run(ctx):
     q = ctx.quick
-    summ, altsp = _gov.run_gov(ctx, "C33", "C33", "Governance_C33_gen_quick.cfg" if q else "Governance_C33_gen_thorough.cfg",
-                               nv=4 if q else 5, depth=3 if q else 4, cap=2000 if q else 8000)
+    # the quick configuration is part of both tiers (its exploration of the real contracts around the deviations is
+    # complete or nearly so); the thorough tier adds the larger configuration
+    _gov.run_gov(ctx, "C33", "C33", "Governance_C33_gen_quick.cfg", nv=4, depth=3, cap=2000)
+    if not q:
+        _gov.run_gov(ctx, "C33", "C33", "Governance_C33_gen_thorough.cfg", nv=5, depth=4, cap=8000)
     return ctx.finish(rule="P-EDGE: every (model state, action) edge of Governance.tla in mode C33 replayed on the real contracts "
                       "(one replay of the shortest history per state, storage snapshot/restore per edge); deviating real executions "
                       "and a bounded breadth-first exploration of the real contracts from each deviating state are judged by TLC "
